@@ -9,3 +9,4 @@ use std::net::{Ipv4Addr, Ipv6Addr, IpAddr, SocketAddr};
 use std::time::{Duration, Instant};
 use vstd::std_specs::hash::*;
 use vstd::std_specs::cmp::{PartialEqSpec, PartialOrdSpec, OrdSpec};
+use vstd::std_specs::ops::AddSpec;
